@@ -19,6 +19,12 @@ using namespace ASAM::CMP;
 #ifndef MT
 #define MT 3
 #endif
+#ifndef CMVER
+#define CMVER 0x04030201
+#endif
+#ifndef CMVER2
+#define CMVER2 5
+#endif
 #ifndef DLC
 #define DLC -1
 #endif
@@ -127,6 +133,16 @@ VP_HARNESS(h_tecmp)
     if (N > 32)
         g_f[32] = static_cast<uint8_t>(DLC);
 #endif
+#endif
+#if MT == 1 && N >= 64 && defined(CMSERIAL)
+    // capture-module status conversion: serial number and version bytes are concrete shape parameters (their decimal
+    // renderings determine string lengths, i.e. allocation sizes); everything else stays symbolic
+    vp_put32(g_f + 28 + 8, CMSERIAL);
+    g_f[28 + 13] = (CMVER) & 0xFF;
+    g_f[28 + 14] = ((CMVER) >> 8) & 0xFF;
+    g_f[28 + 15] = ((CMVER) >> 16) & 0xFF;
+    g_f[28 + 16] = ((CMVER) >> 24) & 0xFF;
+    g_f[28 + 17] = (CMVER2) & 0xFF;
 #endif
     for (unsigned i = 0; i < N; ++i)
         buf[i] = g_f[i];
@@ -286,3 +302,40 @@ VP_HARNESS(h_tecmp)
     }
 #endif
 }
+
+
+#if MT == 1 && N >= 64 && defined(CMSERIAL)
+// History independence of the (static) TECMP conversion: two capture-module status messages with the same serial number and
+// different version bytes; the second packet must carry the second message's version strings.
+VP_HARNESS(h_tecmp_cm_twice)
+{
+    Packets* ps[2];
+    static uint8_t fr[2][N];
+    for (int k = 0; k < 2; ++k)
+    {
+        vp_bytes(fr[k], N);
+        uint8_t* buf = static_cast<uint8_t*>(operator new(N));
+        for (unsigned i = 0; i < N; ++i)
+            buf[i] = fr[k][i];
+        buf[0] = 0;
+        buf[5] = 1;
+        buf[6] = 0;  // data type 0 (0xFF00 would collide with the library's invalid-header sentinel)
+        buf[7] = 0;
+        vp_put16(buf + 24, P);
+        vp_put32(buf + 28 + 8, CMSERIAL);
+        buf[28 + 13] = static_cast<uint8_t>(1 + k);
+        buf[28 + 14] = static_cast<uint8_t>(2 + k);
+        buf[28 + 15] = static_cast<uint8_t>(3 + 7 * k);
+        buf[28 + 16] = static_cast<uint8_t>(4 + k);
+        buf[28 + 17] = static_cast<uint8_t>(5 * (1 - k));
+        Decoder* d = new Decoder;
+        ps[k] = new Packets(d->decode(buf, N));
+    }
+    vp_assert(ps[0]->size() == 1 && ps[1]->size() == 1, "C15: each capture-module status yields one packet");
+    if (ps[1]->size() != 1)
+        return;
+    const CaptureModulePayload& cm = static_cast<const CaptureModulePayload&>((*ps[1])[0]->getPayload());
+    vp_assert(svIs(cm.getHardwareVersion(), "v5.0", 4), "C15: the second message's hardware version is converted from its own bytes (no state carried between calls)");
+    vp_assert(svIs(cm.getSoftwareVersion(), "v2.3.10", 7), "C15: the second message's software version is converted from its own bytes (no state carried between calls)");
+}
+#endif
